@@ -1,10 +1,11 @@
 """C03 — exactly-once delivery."""
-import simgen, oracles
-from props import simprops
+import vlib, simgen, oracles
+from props import simprops, opseq, c14
 
-HARNESS = ("simh",)
+HARNESS = ("simh", "atomh")
 TRUSTED = ["per-mechanism theorems (deliveries of a send, enqueue once, consume once, sender waits, counter = queued messages); the trace-level multiset equality sent = processed is decided on the implementation by the closure oracle and on the model by correspondence",
-           "MessageFnOnce (FnOnce taken once) is covered behaviourally only"]
+           "MessageFnOnce (FnOnce taken once) is covered behaviourally only",
+           "'every connected recipient': the bench DSL connects all ports before the simulation starts; connections added later through a clone of a port (util/cached_rw_lock.rs) are covered by the CachedRw theorems (C14) and by op sequences on the verbatim cached_rw_lock.rs run here as well"]
 ASSUMPTIONS = ["benches of this family do not schedule from handlers, so the oracle's accounting is exact"]
 ORACLES = (oracles.o_harness, oracles.o_exactly_once, oracles.o_time)
 
@@ -15,10 +16,13 @@ def nontrivial(c, mobs):
 
 def tie(rep, tier, rng, model_ok):
     q = tier == "quick"
+    crw = c14.gen_crw(rng, 1500 if q else 30000)
+    opseq.check(rep, "connection-list", crw, vlib.ATOMH, ["seq"], c14.crw_ref, lambda l: l.count("w,") >= 1 and l.count("c,") >= 1, model_ok, 1,
+                rule="connection lists of port clones: op sequences (clone / connect / send over up to 5 clones) on the verbatim cached_rw_lock.rs vs CachedRw.v")
     a = simprops.corpus_cases("C03") + [simgen.gen_net(rng, hier=(i % 3 == 0)) for i in range(400 if q else 12000)]
     simprops.run(rep, "C03", model_ok,
                  [("net", a, (1, 2, 4) if q else (1, 2, 3, 4, 8, 16), ORACLES, nontrivial)],
-                 "2-5 models, DAG of plain/map/filter_map connections to models and a sink, queries, bursts of 1..3x capacity same-time events into mailboxes of capacity 1..16 (senders block), sources, process_event/process_query; multiset comparison with Sim.v on several thread counts + closure oracle (processed = sent, per accepting connection). non-trivial = >=4 invocations")
+                 rep.cov["rule"] + " | 2-5 models, DAG of plain/map/filter_map connections to models and a sink, queries, bursts of 1..3x capacity same-time events into mailboxes of capacity 1..16 (senders block), sources, process_event/process_query; multiset comparison with Sim.v on several thread counts + closure oracle (processed = sent, per accepting connection). non-trivial = >=4 invocations")
 
 
 def replay(rep, path, model_ok):
